@@ -333,4 +333,181 @@ def finish (st : Sh) : Option Env := if st.inq then none else exec st.env (endWo
 /-- environment after the shell, started with `env`, has evaluated `text`; `none` = outside the fragment -/
 def shEval (env : Env) (text : Str) : Option Env := (feed (clean env) text).bind finish
 
+/-! ## the shell, second layer: function definitions, `echo`, double quotes, exit status
+
+What `app.setup` prints besides `export`/`unset`: `NAME() { BODY ; }` for a new alias, `echo "COMMAND"` for every command
+under `-n`, and the single command `false` when the request failed.  `ShF` puts these on top of the word-level
+machine `stepChar`: a table of shell functions (name → canonical text of the parsed body; a body is parsed, never
+run), the lines written by `echo`, the exit status of the last command, double-quoted text (literal; `$`, backquote
+and backslash inside are outside the fragment).  Everything else is delegated to `stepChar` unchanged. -/
+
+def sEcho : Str := [101, 99, 104, 111]                         -- echo
+
+/-- the alphabetic reserved words of dash and bash: not function names, not first words of a command of a body -/
+def reservedWords : List Str :=
+  [[105,102] /- if -/, [116,104,101,110] /- then -/, [101,108,115,101] /- else -/, [101,108,105,102] /- elif -/,
+   [102,105] /- fi -/, [99,97,115,101] /- case -/, [101,115,97,99] /- esac -/, [102,111,114] /- for -/,
+   [119,104,105,108,101] /- while -/, [117,110,116,105,108] /- until -/, [100,111] /- do -/, [100,111,110,101] /- done -/,
+   [105,110] /- in -/, [102,117,110,99,116,105,111,110] /- function -/, [115,101,108,101,99,116] /- select -/,
+   [116,105,109,101] /- time -/, [99,111,112,114,111,99] /- coproc -/]
+
+/-- a function may be defined under this name inside the fragment: an identifier that is neither a reserved word nor
+one of the commands the model interprets (a function called `export` would change what the later commands do) -/
+def fnNameOk (name : Str) : Bool :=
+  isIdent name && !reservedWords.contains name &&
+    !([sExport, sUnset, sTrue, sFalse, sEcho] : List Str).contains name
+
+/-- reader state inside `{ … }`: the words are kept raw (quotes included), the body is not evaluated -/
+structure Body where
+  /-- finished commands -/
+  cmds : List (List Str) := []
+  args : List Str := []
+  cur : Option Str := none
+  inq : Bool := false
+  /-- progress through `$@` (1 after `$`) or `"$@"` (2 after `"`, 3 after `"$`, 4 after `"$@`) -/
+  pend : Nat := 0
+  deriving DecidableEq, Repr
+
+def Body.endWord (b : Body) : Body :=
+  match b.cur with
+  | none => b
+  | some w => { b with args := b.args ++ [w], cur := none }
+
+/-- end of a command of the body (after `endWord`): its first word must not be a reserved word -/
+def Body.endCmd (b : Body) : Option Body :=
+  match b.args with
+  | [] => some b
+  | w :: _ => if reservedWords.contains w then none else some { b with cmds := b.cmds ++ [b.args], args := [] }
+
+/-- one character of a function body: `inl cmds` = the closing `}` was read at the start of a command -/
+def stepBody (b : Body) (c : Nat) : Option (Sum (List (List Str)) Body) :=
+  if b.inq then some (.inr { b with cur := push b.cur c, inq := c != 39 })
+  else if b.pend == 1 then (if c == 64 then some (.inr { b with cur := push b.cur c, pend := 0 }) else none)
+  else if b.pend == 2 then (if c == 36 then some (.inr { b with cur := push b.cur c, pend := 3 }) else none)
+  else if b.pend == 3 then (if c == 64 then some (.inr { b with cur := push b.cur c, pend := 4 }) else none)
+  else if b.pend == 4 then (if c == 34 then some (.inr { b with cur := push b.cur c, pend := 0 }) else none)
+  else if c == 39 then some (.inr { b with cur := push b.cur c, inq := true })
+  else if c == 36 then some (.inr { b with cur := push b.cur c, pend := 1 })
+  else if c == 34 then some (.inr { b with cur := push b.cur c, pend := 2 })
+  else if c == 32 || c == 9 then some (.inr b.endWord)
+  else if c == 10 then b.endWord.endCmd.map .inr
+  else if c == 59 then (if b.endWord.args.isEmpty then none else b.endWord.endCmd.map .inr)
+  else if c == 125 then (if b.cur.isNone && b.args.isEmpty && !b.cmds.isEmpty then some (.inl b.cmds) else none)
+  else if isSafe c then some (.inr { b with cur := push b.cur c })
+  else none
+
+/-- `a b c` -/
+def joinWith (sep : Str) : List Str → Str
+  | [] => []
+  | [w] => w
+  | w :: r => w ++ sep ++ joinWith sep r
+
+/-- canonical text of a parsed body: words joined by one blank, commands by `; ` -/
+def bodyText (cmds : List (List Str)) : Str := joinWith [59, 32] (cmds.map (joinWith [32]))
+
+inductive Mode
+  | cmd
+  /-- after `NAME(` -/
+  | fnParen (name : Str)
+  /-- after `NAME()` -/
+  | fnBrace (name : Str)
+  /-- after `{` -/
+  | fnOpen (name : Str)
+  | body (name : Str) (b : Body)
+  /-- after the closing `}` -/
+  | afterFn
+  deriving DecidableEq, Repr
+
+structure ShF where
+  sh : Sh
+  /-- shell functions: name → canonical body text -/
+  funcs : Env := []
+  /-- lines written by `echo` -/
+  out : List Str := []
+  /-- exit status of the last command -/
+  status : Nat := 0
+  /-- inside double quotes -/
+  dq : Bool := false
+  /-- the command being read contains a quote character -/
+  q : Bool := false
+  mode : Mode := .cmd
+  deriving DecidableEq, Repr
+
+/-- what a finished simple command does to the function table: `unset -f NAME…` -/
+def fnEffect (args : List Str) (fs : Env) : Env :=
+  match args with
+  | w :: f :: names => if w == sUnset && f == sDashF then names.foldl Env.unset fs else fs
+  | _ => fs
+
+/-- `echo WORDS`: the words joined by one blank; an option-like first word or a backslash (dash's echo interprets
+escapes) is outside the fragment -/
+def echoLine (args : List Str) : Option Str :=
+  if (args.head?.bind (·.head?)) == some 45 then none
+  else if args.any (·.contains 92) then none
+  else some (joinWith [32] args)
+
+/-- `unset NAME…` without `-f`: bash removes the *function* NAME when there is no variable of that name, dash never
+does — such a command is outside the fragment -/
+def unsetVarsOk (env fs : Env) : List Str → Bool
+  | [] => true
+  | n :: r => (env.has n || !fs.has n) && unsetVarsOk (env.unset n) fs r
+
+def stepF (st : ShF) (c : Nat) : Option ShF :=
+  match st.mode with
+  | .cmd =>
+    if st.sh.inq then (stepChar st.sh c).map fun s => { st with sh := s }
+    else if st.dq then
+      if c == 34 then some { st with dq := false }
+      else if c == 36 || c == 96 || c == 92 then none
+      else some { st with sh := { st.sh with cur := push st.sh.cur c } }
+    else if c == 34 then some { st with dq := true, q := true, sh := { st.sh with cur := some (st.sh.cur.getD []) } }
+    else if c == 39 then (stepChar st.sh c).map fun s => { st with sh := s, q := true }
+    else if c == 40 then
+      match st.sh.args, st.sh.cur with
+      | [], some name =>
+        if fnNameOk name && !st.q then some { st with sh := clean st.sh.env, mode := .fnParen name } else none
+      | _, _ => none
+    else if c == 10 || c == 59 then
+      match (endWord st.sh).args with
+      | [] => if c == 59 then none else some st
+      | w :: rest =>
+        if w == sEcho then
+          (echoLine rest).map fun l => { st with sh := clean st.sh.env, out := st.out ++ [l], status := 0, q := false }
+        else if w == sUnset && rest.head? != some sDashF && !unsetVarsOk st.sh.env st.funcs rest then none
+        else
+          (stepChar st.sh c).map fun s =>
+            { st with sh := s, funcs := fnEffect (w :: rest) st.funcs, status := if w == sFalse then 1 else 0, q := false }
+    else (stepChar st.sh c).map fun s => { st with sh := s }
+  | .fnParen name => if c == 41 then some { st with mode := .fnBrace name } else none
+  | .fnBrace name =>
+    if c == 32 || c == 9 || c == 10 then some st
+    else if c == 123 then some { st with mode := .fnOpen name }
+    else none
+  | .fnOpen name => if c == 32 || c == 9 || c == 10 then some { st with mode := .body name {} } else none
+  | .body name b =>
+    match stepBody b c with
+    | none => none
+    | some (.inr b') => some { st with mode := .body name b' }
+    | some (.inl cmds) => some { st with mode := .afterFn, funcs := st.funcs.set name (bodyText cmds), status := 0 }
+  | .afterFn =>
+    if c == 32 || c == 9 then some st
+    else if c == 10 || c == 59 then some { st with mode := .cmd }
+    else none
+
+def feedF (st : ShF) (text : Str) : Option ShF := text.foldlM stepF st
+
+/-- end of the text: a pending command is run as if a newline followed -/
+def finishF (st : ShF) : Option ShF :=
+  if st.dq || st.sh.inq then none
+  else match st.mode with
+    | .afterFn => some { st with mode := .cmd }
+    | .cmd => stepF st 10
+    | _ => none
+
+def startF (env funcs : Env) : ShF := { sh := clean env, funcs := funcs }
+
+/-- the shell started with the exported environment `env` and the functions `funcs` has evaluated `text`:
+environment, functions, lines echoed, exit status; `none` = outside the fragment -/
+def shEvalF (env funcs : Env) (text : Str) : Option ShF := (feedF (startF env funcs) text).bind finishF
+
 end EupsModel.ShellEmit
